@@ -125,7 +125,8 @@ package http
 //@   call getBeaconHandler#0: assert [C19:chain-info-is-read-from-the-handler-of-the-hash-given] arg1 == chainHash
 
 //@ func (*DrandHandler).PublicRand(h, w, r)
-//@   props C01 C19
+//@   props C01 C19 C14
+//@   flags lockcheck nopanic=C14 recovered
 //@   requires [wf] h.log != nil
 //@   call getBeaconHandler#0: assert [C19:http-round-request-is-looked-up-under-the-hash-of-its-path] arg1 == chainHashHex
 //@   call getChainInfo#0: assert [C19:http-round-request-reads-the-info-of-the-chain-of-its-path] arg2 == chainHashHex
@@ -133,14 +134,16 @@ package http
 //@   call ServeContent#0: assert [C01:http-round-request-serves-what-the-fetch-returned] data != nil
 
 //@ func (*DrandHandler).LatestRand(h, w, r)
-//@   props C01 C19
+//@   props C01 C19 C14
+//@   flags lockcheck nopanic=C14 recovered
 //@   requires [wf] h.log != nil
 //@   call getBeaconHandler#0: assert [C19:http-latest-request-is-looked-up-under-the-hash-of-its-path] arg1 == chainHashHex
 //@   call Get#0: assert [C01,C19:http-latest-request-asks-the-client-of-that-chain-for-the-latest-round] arg0 == bh.client && arg2 == 0
 //@   call getChainInfo#0: assert [C19:http-latest-request-reads-the-info-of-the-chain-of-its-path] arg2 == chainHashHex
 
 //@ func (*DrandHandler).ChainInfo(h, w, r)
-//@   props C19
+//@   props C19 C14
+//@   flags lockcheck nopanic=C14 recovered
 //@   requires [wf] h.log != nil
 //@   call getChainInfo#0: assert [C19:http-info-request-reads-the-info-of-the-chain-of-its-path] arg2 == chainHashHex
 
@@ -151,3 +154,17 @@ package http
 //@ pure (net/http.ResponseWriter).
 //@ pure context.WithTimeout
 //@ pure bytes.NewReader
+
+// ---- C14: the table of chains served over HTTP is a Go map shared between the request handlers and the daemon ------------
+// RegisterNewBeaconHandler / RemoveBeaconHandler write it under h.state while a chain is loaded or stopped; every handler
+// that reads or iterates it has to hold h.state (an unsynchronised map access racing with a writer is a fatal runtime
+// error that neither net/http's per-request recovery nor anything else contains).
+// (flags recovered on the HTTP handlers: net/http recovers a panic of a handler per connection and keeps serving; what
+// it cannot undo is a mutex left locked, which is what the no-panic obligations of these functions check.)
+//@ guarded DrandHandler.beacons by state
+//@ func (*DrandHandler).ChainHashes(h, w, r)
+//@   props C14
+//@   flags lockcheck nopanic=C14 recovered
+//@ func (*DrandHandler).Health(h, w, r)
+//@   props C14
+//@   flags lockcheck nopanic=C14 recovered
